@@ -59,6 +59,7 @@ claimed = {
 }
 na_reason = {
  'C07': "quantifies over goroutine schedules and data races; sequential contracts cannot decide it (DESIGN.md section 5)",
+ 'C20': "the probes (HasTable, column lookup, HasIndex, HasConstraint) and the DDL are the dialect migrator's and the SQL engine's, outside /repo; the guard-structure lemma planned as Tier 3 was not built (DESIGN.md sections 5 and 10.3)",
  'C12': "oracle is the database content after a history of association operations driven by reflection; not expressible in contracts within reach (DESIGN.md section 5)",
 }
 m = {
